@@ -79,6 +79,7 @@ def run(chk):
            'variables are renamed inside the rule object of the program', fi=v.fi, node=c)
 
   combine_disambiguation_total(chk, 'C02-R1')
+  K.fresh_combine_names(chk, 'C02-R1')
 
   chk.rule('C02-R2', 'a combine is compiled as a correlated sub-query: the '
            'outer vocabulary and is_combine=True reach TranslateRule / '
